@@ -125,13 +125,17 @@ structure CycleIn where
   cfg : Config
   server : Server
   shipped : Option Root
+  reads : List (Int × Nat) := []
 
 def parseCycle (j : Json) : Except String CycleIn := do
   let c ← j.getObjVal? "cfg"
   let cfg : Config := { limits := ← parseLimits (← c.getObjVal? "limits"), safe := ← getBool c "safe", now := ← getInt c "now" }
   let sj ← j.getObjVal? "shipped"
   let shipped ← if sj.isNull then pure none else do pure (some (← parseRoot sj))
-  pure { cfg := cfg, server := ← parseServer (← j.getObjVal? "server"), shipped := shipped }
+  let reads ← match optField j "reads" with
+    | some r => do (← r.getArr?).toList.mapM fun x => do pure (← getInt x "now", ← getNat x "name")
+    | none => pure []
+  pure { cfg := cfg, server := ← parseServer (← j.getObjVal? "server"), shipped := shipped, reads := reads }
 
 /-! rendering -/
 
